@@ -11,8 +11,12 @@ EXPLANATION = (
     "either colour occupies the square; (R3) nobody else can write this state (imports C05.R4); (R4) castle rights "
     "only ever lose bits: the only values pushed are old & !lost and the unchanged top; (R6) locate/put/remove/get "
     "agree on piece <-> bitboard slot and Piece::from_usize is the inverse of the discriminant; (R7) Board::occupied, "
-    "Board::is_occupied and Board::get agree with the two colour sets. One king per side, no pawns on the last ranks "
-    "and the geometric en-passant invariant are consequences of legal play and are NOT decided here.")
+    "Board::is_occupied and Board::get agree with the two colour sets; (R5) the castle-rights and en-passant-target "
+    "effect tables of apply (imports C03.R1-R3: rights are dropped whenever king or rook leave home or the rook is taken, the ep "
+    "target is set only behind a double pawn step); (R8) no pawn stays on a last rank: the generator splits every pawn move at the "
+    "mover's last rank into the four promotions (imports C01.R7) and a promotion replaces the pawn by the chosen piece (imports "
+    "C03.R4). 'One king per side' is a consequence of legal play (no king capture: C01.R2) and is NOT decided here; the geometric "
+    "ep clause 'square behind the target is empty' is decided only through the double-step rows of R5.")
 ASSUMPTIONS = [
     "rustc MIR construction and the chessfacts extractor are faithful",
     "iter().enumerate() yields (index, element) pairs in order",
@@ -294,3 +298,21 @@ def run(ctx):
                    nontrivial='floor' not in inst)
     r6_index_agreement(ctx)
     r7_summary(ctx)
+    # R8: no pawn on the first/eighth rank. Structural necessary conditions: the generator sends every pawn move that lands on the
+    #     mover's last rank through the promotion expansion (same rule instances as C01.R7) and a promotion replaces the pawn by the
+    #     chosen piece, chosen from {Q,R,B,N} (same rule instances as C03.R4)
+    from . import c01
+    sub = type(ctx)(ctx.prop, ctx.tier, ctx.facts, ctx.facts_info, ctx.seed)
+    c01.r7_promotions(sub)
+    c03.r4_promotion(sub)
+    n8 = 0
+    for s in sub.samples:
+        inst = s['instance']
+        if 'queen first' in inst:
+            continue
+        n8 += 1
+        ctx.ob('C12.R8-no-pawn-on-last-rank', s['function'], inst, s['ok'], found=s['found'], expected=s['expected'],
+               why='a pawn reaching its last rank must leave the board as a piece of {Q,R,B,N}: a last-rank pawn move emitted or applied '
+                   'as an ordinary move leaves a pawn on the first/eighth rank',
+               nontrivial='floor' not in inst)
+    ctx.floor('C12.R8-no-pawn-on-last-rank', 'promotion obligations imported', n8, 6)
